@@ -109,7 +109,18 @@ pub enum Case {
     /// 0 tanh-sinh `integrate`, 1 `integrate_gaussian`, 2 `integrate_simpson`
     Interval { routine: u8, job: Job },
     /// 0 hermite, 1 laguerre, 2 chebyshev, 3 chebyshev_second; integrand sum u_k x^k / sqrt(mu0 m_2k) + cc cos(b x)
-    Weighted { family: u8, u: Vec<f64>, u_im: Vec<f64>, cc: f64, b: f64, tol_pos: f64, complex: bool },
+    Weighted {
+        family: u8,
+        u: Vec<f64>,
+        u_im: Vec<f64>,
+        cc: f64,
+        b: f64,
+        tol_pos: f64,
+        complex: bool,
+        /// every amplitude is multiplied by 10^mag_exp (integrals much larger / smaller than 1, absolute tolerance)
+        #[serde(default)]
+        mag_exp: f64,
+    },
     Romberg { n: usize, coef: Vec<f64>, coef_im: Vec<f64>, l: f64, len: f64, complex: bool },
     SimpsonBatch { jobs: Vec<Job> },
     /// routine 0..=7 (integrate, simpson, fixed, gaussian, laguerre, hermite, chebyshev, chebyshev_second);
@@ -442,7 +453,12 @@ fn bessel_j1_over_x(b: f64) -> f64 {
 }
 
 fn run_weighted(case: &Case, mut o: Obs) -> Outcome {
-    let Case::Weighted { family, u, u_im, cc, b, tol_pos, complex } = case else { unreachable!() };
+    let Case::Weighted { family, u, u_im, cc, b, tol_pos, complex, mag_exp } = case else { unreachable!() };
+    let mag = 10f64.powf(*mag_exp);
+    let (u, u_im, cc) = (&u.iter().map(|v| v * mag).collect::<Vec<f64>>(), &u_im.iter().map(|v| v * mag).collect::<Vec<f64>>(), &(cc * mag));
+    if *mag_exp != 0.0 {
+        o.label("weighted-magnitude");
+    }
     let fam = [Family::Hermite, Family::Laguerre, Family::Chebyshev1, Family::Chebyshev2][*family as usize % 4];
     o.label(format!("weighted-{}", fam.name()));
     let (nrules, dmax) = match fam {
@@ -477,18 +493,7 @@ fn run_weighted(case: &Case, mut o: Obs) -> Outcome {
         o.label("non-polynomial");
     }
     o.nontrivial = cc != 0.0 || u.len() >= 5 || *complex;
-    let (nstar, areas) = match simulate_gauss(fam, nrules, &f, tol) {
-        Ok(v) => v,
-        Err(why) => return o.discard(format!("weighted rule not admitted: {why}")),
-    };
-    for k in 0..3 {
-        if let Some(a) = areas.get(nstar - 1 + k) {
-            if !((a - exact).norm() <= tol / 2.0) {
-                return o.discard("weighted rule not admitted: agreeing rules are not within tol/2 of the integral");
-            }
-        }
-    }
-    o.set("n_star", nstar);
+    let sim = simulate_gauss(fam, nrules, &f, tol);
     let res = if *complex {
         guard(|| match fam {
             Family::Hermite => bi::integrate_hermite::<C64, _>(&f, tol),
@@ -508,6 +513,35 @@ fn run_weighted(case: &Case, mut o: Obs) -> Outcome {
             .map(|v| c(v, 0.0))
         })
     };
+    let (nstar, areas) = match sim {
+        Ok(v) => v,
+        Err(why) => {
+            // not admitted. One sub-class is still decidable: the documented rule, simulated with the margin, does not
+            // stop at any rule of the sequence (the routine must report Err) - an Ok that is off by more than the bound
+            // cannot then be blamed on a fooled estimator.
+            if why.contains("exhausted") {
+                if let Ok(Ok(v)) = &res {
+                    let err = (v - exact).norm();
+                    if !(err <= 2.0 * tol + floor) {
+                        return o.fail(format!(
+                            "integrate_{} returned Ok({v:e}), {err:e} from the true integral {exact:e} (allowed {:e}), although the documented stopping rule does not stop at any rule of the sequence",
+                            fam.name(),
+                            2.0 * tol + floor
+                        ));
+                    }
+                }
+            }
+            return o.discard(format!("weighted rule not admitted: {why}"));
+        }
+    };
+    for k in 0..3 {
+        if let Some(a) = areas.get(nstar - 1 + k) {
+            if !((a - exact).norm() <= tol / 2.0) {
+                return o.discard("weighted rule not admitted: agreeing rules are not within tol/2 of the integral");
+            }
+        }
+    }
+    o.set("n_star", nstar);
     judge(o, res, exact, 2.0 * tol + floor, &format!("integrate_{}", fam.name()))
 }
 
@@ -634,8 +668,8 @@ fn job() -> BoxedStrategy<Job> {
 fn strategy(t: Tier) -> BoxedStrategy<Case> {
     let interval = (0u8..3, job()).prop_map(|(routine, job)| Case::Interval { routine, job });
     let uvec = || (0usize..=30).prop_flat_map(|d| proptest::collection::vec(gen::fl(-1.0, 1.0), d + 1));
-    let weighted = (0u8..4, uvec(), uvec(), prop_oneof![1 => Just(0.0), 2 => gen::fl(-2.0, 2.0)], gen::fl(-1.0, 1.0), gen::fl(0.0, 1.0), prop_oneof![3 => Just(false), 1 => Just(true)])
-        .prop_map(|(family, u, u_im, cc, b, tol_pos, complex)| Case::Weighted { family, u, u_im, cc, b, tol_pos, complex });
+    let weighted = (0u8..4, uvec(), uvec(), prop_oneof![1 => Just(0.0), 2 => gen::fl(-2.0, 2.0)], (gen::fl(-1.0, 1.0), prop_oneof![2 => Just(0.0), 1 => gen::fl(-3.0, 0.0), 1 => gen::fl(0.0, 3.0)]), gen::fl(0.0, 1.0), prop_oneof![3 => Just(false), 1 => Just(true)])
+        .prop_map(|(family, u, u_im, cc, (b, mag_exp), tol_pos, complex)| Case::Weighted { family, u, u_im, cc, b, tol_pos, complex, mag_exp });
     let romberg = (1usize..=10, proptest::collection::vec(gen::fl(-1.0, 1.0), 20), proptest::collection::vec(gen::fl(-1.0, 1.0), 20), gen::fl(0.05, 4.0), gen::fl(0.0, 1.0), any::<bool>())
         .prop_map(|(n, coef, coef_im, len, pos, complex)| Case::Romberg { n, coef, coef_im, l: -5.0 + (10.0 - len) * pos, len, complex });
     let nb = t.pick(20, 40);
@@ -668,7 +702,7 @@ pub fn run(opts: &Opts) -> i32 {
         ("complex", 0.1),
     ];
     spec.max_discard_frac = 0.2;
-    spec.rule = "generated: integrands P_d(x)+A e^{ax}+B sin(bx+phi) (d<=6, |a|<=1.5, |b|<=2; complex variant + i Q(x) + C e^{i b x}; coefficients in [-1,1], amplitudes in [-2,2], all optionally times a common magnitude 10^[-3,1]) on intervals of length 0.05..4 anywhere in [-5,5], tolerance log-uniform from max(1e-11, 1e4 eps (b-a) sum|terms|) to 1e-3 for tanh-sinh / Gauss-Legendre / adaptive Simpson; weighted rules on sum u_k x^k/sqrt(mu0 m_2k) + C cos(bx) (degree <= 12 Hermite, 19 Laguerre, 30 Chebyshev; |b|<=1, 0.5 for Laguerre) against exact moments and closed forms; Romberg n=1..10 on polynomials of degree <= 2n-1; batches of 20/40 Simpson integrals for the work bound; invalid class (reversed/empty interval, negative tolerance) for all eight routines. A case is admitted only if the harness's simulation of the documented stopping rule on independently computed nodes decides every step with a factor-1.5 margin and is itself within tol/2 of the closed-form integral; non-admitted cases are counted as discards (< 20%). Oracle: Ok required; |v-I| <= 2 tol + 64 eps (b-a) sum|terms| (tanh-sinh below 1e-8: 4 sqrt(tol); Simpson: tol on polynomials of degree <= 5 (no accuracy claim on the smooth family), evaluation count <= 8x reference + 32 per case and <= 2x per batch; Romberg: 2048 eps (b-a) sum|c_k||x|^k). Non-trivial = non-polynomial, degree >= 4, complex or interval not containing 0; weighted: non-polynomial or >= 5 coefficients or complex; batches; invalid. Distinct = distinct case JSON.".into();
+    spec.rule = "generated: integrands P_d(x)+A e^{ax}+B sin(bx+phi) (d<=6, |a|<=1.5, |b|<=2; complex variant + i Q(x) + C e^{i b x}; coefficients in [-1,1], amplitudes in [-2,2], all optionally times a common magnitude 10^[-3,1]) on intervals of length 0.05..4 anywhere in [-5,5], tolerance log-uniform from max(1e-11, 1e4 eps (b-a) sum|terms|) to 1e-3 for tanh-sinh / Gauss-Legendre / adaptive Simpson; weighted rules on sum u_k x^k/sqrt(mu0 m_2k) + C cos(bx) (degree <= 12 Hermite, 19 Laguerre, 30 Chebyshev; |b|<=1, 0.5 for Laguerre) against exact moments and closed forms, amplitudes optionally times 10^[-3,3] (integrals far from unit size under an absolute tolerance); Romberg n=1..10 on polynomials of degree <= 2n-1; batches of 20/40 Simpson integrals for the work bound; invalid class (reversed/empty interval, negative tolerance) for all eight routines. A case is admitted only if the harness's simulation of the documented stopping rule on independently computed nodes decides every step with a factor-1.5 margin and is itself within tol/2 of the closed-form integral; non-admitted cases are counted as discards (< 20%). Oracle: Ok required; |v-I| <= 2 tol + 64 eps (b-a) sum|terms| (tanh-sinh below 1e-8: 4 sqrt(tol); Simpson: tol on polynomials of degree <= 5 (no accuracy claim on the smooth family), evaluation count <= 8x reference + 32 per case and <= 2x per batch; Romberg: 2048 eps (b-a) sum|c_k||x|^k). Non-trivial = non-polynomial, degree >= 4, complex or interval not containing 0; weighted: non-polynomial or >= 5 coefficients or complex; batches; invalid. Distinct = distinct case JSON.".into();
     spec.assumptions = vec!["closed-form integrals evaluated by Taylor shift / expm1 / product formulas (error << floor)".into(), "independent Gauss rules by Golub-Welsch (refs::quad), validated against the tables by C10".into()];
     spec.max_shrink_iters = 1500;
     run_spec(spec, opts)
